@@ -32,7 +32,7 @@ ASSUMPTIONS = [fastenv.ASSUMPTION, "file-system model = POSIX as validated by th
 OUTSIDE = ["pipelines other than P1 (nested keep)", "DBFS store"]
 FUNCTIONS_ENCODED = ["dds._api._parse_stages", "dds._api._eval", "dds._api._eval_new_ctx", "dds.structures.ProcessingStage.all_phases", "dds.store.MemoryStore.*", "dds.store.LocalFileStore.*"]
 BOUNDS = {"quick": {"parse": "lists of 0..5 elements; each element one of the 5 stages in 5 spellings (lists of 3..5 elements: one spelling per query), or one of 14 adversarial non-stage values (enum attribute names, near misses, non-str); elements after the first invalid one are pinned", "run": "prefix length 0..5 x 3 spellings x 6 store pre-states (cold; the other version committed; all blobs of the evaluated version present but the paths serving the other version; up to date; the last two also with the root itself kept, so that the root's own blob exists) x {memory, local}"}}
-BOUNDS["thorough"] = BOUNDS["quick"]
+BOUNDS["thorough"] = dict(BOUNDS["quick"], payload="symbolic ASCII str <= 2 chars in run.* (quick: <= 1)")
 LAST_DETAIL = [""]
 ORDER = ProcessingStage.all_phases()
 INT_DIR, DATA_DIR = "/s/int", "/s/data"
@@ -215,13 +215,13 @@ def make_fn(fn, sel, tag):
                 params += [("s%d" % j, "int")]
                 pres += ["0 <= s%d <= 4" % j]
         return h.gen_fn(tag, "parse", params, pres, "harness.C15", "parse_impl")
-    return h.gen_fn(tag, "run", [("n", "int"), ("sp", "int"), ("pay", "str")], ["0 <= n <= 5", "0 <= sp <= 2", "len(pay) <= 1 and pay.isascii()"], "harness.C15", "run_impl")
+    return h.gen_fn(tag, "run", [("n", "int"), ("sp", "int"), ("pay", "str")], ["0 <= n <= 5", "0 <= sp <= 2", "len(pay) <= %d and pay.isascii()" % sel.get("plen", 1)], "harness.C15", "run_impl")
 
 
 def queries(tier):
     qs = [{"id": "parse.%d" % n, "fn": "parse", "sel": {"n": n}, "timeout": 400} for n in range(0, 3)]
     qs += [{"id": "parse.%d.sp%d" % (n, sp), "fn": "parse", "sel": {"n": n, "sp": sp}, "timeout": 400} for n in (3, 4, 5) for sp in range(5)]
-    qs += [{"id": "run.%s.pre%d" % (s, pre), "fn": "run", "sel": {"store": s, "pre": pre}, "timeout": 400} for s in ("memory", "local") for pre in range(6)]
+    qs += [{"id": "run.%s.pre%d" % (s, pre), "fn": "run", "sel": dict({"store": s, "pre": pre}, **({"plen": 2} if tier == "thorough" else {})), "timeout": 400 if tier == "quick" else 1800} for s in ("memory", "local") for pre in range(6)]
     return qs
 
 
